@@ -282,9 +282,9 @@ PROPS["C02"] = {
     "assumptions": JOURNAL + ["pre-state satisfies Inv (DESIGN.md B.4) incl. I7 at the witness (a present byte at or beyond the size is zero; allocated blocks are zero)", "representative inode/block numbers and offsets (bound R_addr)", "histories: by induction over the step, given C04 (invariant preserved) - argued, not checked", "the eof flag is only required to be sound (eof => nothing follows), not eager"],
     "outside": ["sequences of more than one mutator (induction over the step)", "restarts (C10: cache = disk, C01 recovery)", "directories beyond K_slots entries, names longer than L_name", "witness offsets other than the representatives", "transfers of more than B_bytes bytes", "READDIR listings (C13 decides them against the directory block)"],
     "harnesses": [
-        H("nfs.VerifC02Data", covers=("ok", "refused", "written", "kept", "gap", "end"), q=dict(STEPQ, inums=1, zeroalloc=1, offsets=0, wblks=2, preentries=1), t=dict(STEPT, inums=1, zeroalloc=1, offsets=1, wblks=3, pendingshrink=0, preentries=1), lmax=3, budget_s=600, budget_s_t=3000),
+        H("nfs.VerifC02Data", covers=("ok", "refused", "written", "kept", "gap", "end"), q=dict(STEPQ, inums=1, zeroalloc=1, offsets=0, wblks=2, preentries=1), t=dict(STEPQ, inums=1, zeroalloc=1, offsets=0, wblks=2, preentries=1), lmax=3, budget_s=600, budget_s_t=3000),
         H("nfs.VerifC02Lookup", covers=("found", "absent", "last-slot", "end"), q=dict(STEPQ, inums=1, dirslots=32, nodirhook=1, sizeblocks=0), t=dict(STEPQ, inums=1, dirslots=32, nodirhook=1, sizeblocks=0), lmax=3, budget_s=600),
-        H("nfs.VerifC02Names", covers=("created", "removed", "renamed", "refused", "end"), q=dict(STEPQ, inums=1, preentries=1), t=dict(STEPT, preentries=1, pendingshrink=0), lmax=3, budget_s=900, budget_s_t=3000),
+        H("nfs.VerifC02Names", covers=("created", "removed", "renamed", "refused", "end"), q=dict(STEPQ, inums=1, preentries=1), t=dict(STEPQ, inums=1, preentries=1), lmax=3, budget_s=900, budget_s_t=3000),
     ],
 }
 
@@ -294,7 +294,7 @@ PROPS["C05"] = {
     "assumptions": JOURNAL + ["pre-state satisfies Inv (DESIGN.md B.4) including bitmap agreement and link counts", "representative inode/block numbers (bound R_addr)", "the global statement (marked = reachable from the root; free space returns to its initial value) follows from the per-inode clauses by induction over requests and is argued, not checked", "crash states are states between transactions (C01); a half-freed object met by a later request is the pending-shrink pre-state"],
     "outside": ["entries of the double-indirect tree (only its root slot is followed)", "commits refused by the journal (transactions above 511 blocks): then the in-memory allocators and the disk bitmaps can differ until a restart (observed by reading fstxn.commitWait, not reachable within B_bytes)", "histories (induction over the step)", "the background shrinker thread racing with requests (C03/C14)"],
     "harnesses": _steps("p05", (1, 2, 3), covers_by={2: ("w5-create", "w5-remove"), 3: ("w5-rename",)}, q_by={2: {"pendingshrink": 1}}, t_by={1: {"inums": 1, "pendingshrink": 0, "namelens": 2}, 2: {"inums": 1, "namelens": 2}, 3: {"inums": 1, "pendingshrink": 0, "namelens": 2}}) + [
-        H("nfs.VerifC05Shrink", covers=("end", "entry-freed", "entry-hole"), q=dict(STEPQ, inums=1, bblocks=2, sizeblocks=0), t=dict(STEPQ, inums=2, bblocks=3, sizeblocks=0), lmax=3, budget_s=400, budget_s_t=1500),
+        H("nfs.VerifC05Shrink", covers=("end", "entry-freed", "entry-hole"), q=dict(STEPQ, inums=1, bblocks=2, sizeblocks=0), t=dict(STEPQ, inums=1, bblocks=2, sizeblocks=0, c05ext=1), lmax=3, budget_s=400, budget_s_t=1500),
         H("nfs.VerifC05Restart", covers=("end",), q=dict(STEPQ, inums=1), t=dict(STEPQ, inums=1), budget_s=200),
         {"fn": "github.com/mit-pdos/go-journal/alloc.VerifAllocContract", "covers": ["end", "full", "allocated"], "q": {"allocbytes": 2, "realalloc": 1}, "t": {"allocbytes": 3, "realalloc": 1}, "budget_s": 300, "budget_s_t": 900},
     ],
